@@ -186,10 +186,13 @@ def check_basis(ctx, b, label, rng):
                 if ladders and max(ladders) != cap:
                     ctx.violation(site, 'cap', 'AutoAux: element %s highest auxiliary momentum %d, cap formula gives %d' % (z, max(ladders), cap), replay)
                 # geometric with the published ratios; starts at the smallest coupled sum
+                # the primitives of a momentum are those that some function of that momentum uses (a fused shell may hold
+                # primitives that contribute to one of its momenta only)
                 xs_by_l = {}
                 for sh in b['elements'][z]['electron_shells']:
-                    for l in sh['angular_momentum']:
-                        xs_by_l.setdefault(l, []).extend(float(x) for x in sh['exponents'])
+                    for k_, l in enumerate(sh['angular_momentum']):
+                        cols = [sh['coefficients'][k_]] if len(sh['angular_momentum']) > 1 else sh['coefficients']
+                        xs_by_l.setdefault(l, []).extend(float(x) for i_, x in enumerate(sh['exponents']) if any(float(c[i_]) != 0.0 for c in cols))
                 big = [1.8, 2.0, 2.2, 2.2, 2.2, 2.3, 3.0, 3.0]
                 for l, xs in ladders.items():
                     ratio = 1.8 if l <= 2 * lval else big[min(l, 7)]
@@ -301,7 +304,8 @@ def work_patho(ctx, k):
     """the labelled pathological (valid) shapes that have fused shells, zero coefficients or shared primitives: the same auxiliary
     basis from every representation"""
     pool = [gen.patho_p_only_primitive_in_sp, gen.patho_mixed_fused, gen.patho_unsorted_fused, gen.patho_plain_then_fused_shared,
-            gen.patho_respelled_shared, gen.patho_near_equal_exponents, gen.patho_uncontracted_block, gen.patho_block_general_shared_column]
+            gen.patho_respelled_shared, gen.patho_near_equal_exponents, gen.patho_uncontracted_block, gen.patho_block_general_shared_column,
+            gen.patho_sp_zero_edges]
     f = pool[k % len(pool)]
     rng = random.Random(ctx.seed * 47 + k)
     b = f(rng)
@@ -326,7 +330,7 @@ def run(ctx):
         pairs = [(n, md[n]['latest_version']) for n in names]
     store.parallel(ctx, work_store, pairs)
     store.parallel(ctx, work_generated, [ctx.seed * 311 + i for i in range(ctx.budget(60, 3000))])
-    store.parallel(ctx, work_patho, list(range(ctx.budget(16, 160))))
+    store.parallel(ctx, work_patho, list(range(ctx.budget(18, 180))))
 
 
 def replay(ctx, rec):
